@@ -639,6 +639,32 @@ impl EffectiveAuthority {
         decision.is_permitted().then_some(decision.constraints)
     }
 
+    /// Whether any authority that lets this caller read carries a field mask.
+    ///
+    /// Deliberately coarse — it does not ask which elements the masked
+    /// authority reaches. The read path asks once per query, before it has
+    /// seen any element, whether an index may narrow candidates by content at
+    /// all: an index answers from the stored row, so for a caller some of
+    /// whose reads are masked, *which candidates get loaded* is already a
+    /// function of members it may not see — and loading has effects a dropped
+    /// candidate leaves behind (the result cap its Grant carries, the
+    /// candidate budget), which is the probe §109 closes.
+    pub fn carries_field_mask(&self) -> bool {
+        if self.is_owner {
+            return false;
+        }
+        let read = Permission::Read.as_str();
+        self.candidates.iter().any(|candidate| {
+            !candidate.constraints.fields.is_empty()
+                && candidate.actions.iter().any(|action| action == read)
+        }) || self.statements.iter().any(|statement| {
+            statement.effect == "allow"
+                && !statement.constraints.fields.is_empty()
+                && (statement.actions.is_empty()
+                    || statement.actions.iter().any(|action| action == read))
+        })
+    }
+
     /// Whether this caller's authority reaches every element in the Space.
     ///
     /// A Space-wide count is only honest when it is: a caller whose Grant is
